@@ -595,6 +595,7 @@ func Worker(o core.WorkerOpts) *core.Report {
 		default:
 			c = genHistory(r, "inproc")
 		}
+		l.Current(caseSeed, c)
 		res := Execute(c, false, o.Bin)
 		l.NoteTrace(res.Trace.Hash())
 		if res.HarnessErr != "" {
